@@ -30,7 +30,9 @@ NS = {'T': T, 'S': S, 'A': A, 'Path': Path, 'len': len, 'slice': slice}
 
 # step terms; argument sources are python expressions evaluated in NS
 ITEM_ARGS = ["'k'", "'it\\'s \"q\"'", "0", "-1", "None", "1.5", "True", "1", "1.0", "'A'", "(1, 2)", "(1,)", "()", "\"it's\"", "'d.t'", "'q\"'",
-             "slice(1, 2)", "slice(None, None, 2)", "(slice(1, 2), 3)", "len", "T.a"]
+             "slice(1, 2)", "slice(None, None, 2)", "(slice(1, 2), 3)", "len", "T.a",
+             # longer than every default limit of reprlib.Repr (string 30, long 40, tuple 6, nesting 6)
+             "('%s', %s, (1, 2, 3, 4, 5, 6, 7, 8), ((((((((1,),),),),),),),))" % ('long-string-' * 4, '1234567890' * 5)]
 CALL_ARGS = [("", ""), ("1, 'x'", ""), ("", "k=None"), ("T.a", ""), ("len", ""), ("", "k='it\\'s \"q\"'"), ("'it\\'s \"q\"'", "j=('a\\'b\"c',)")]
 STEPS = [['.', 'a'], ['.', 'T']] + [['[', a] for a in ITEM_ARGS] + [['(', a, k] for a, k in CALL_ARGS] + [['x'], ['X']]
 P_SEGS = ["'a'", "'d.t'", "0", "None", "(1, 2)", "'S'", "('x', 'y')", "()"]
@@ -258,7 +260,7 @@ def gen_roundtrip(tier):
 # ---------------------------------------------------------------------------
 # sequence laws
 
-SEQ_STEPS = [['P', "'a'"], ['P', '0'], ['.', 'b'], ['[', "'k'"], ['x']]
+SEQ_STEPS = [['P', "'a'"], ['P', '0'], ['.', 'b'], ['[', "'k'"], ['x'], ['.', 'a'], ['[', "'a'"]]    # 'a' as a Path segment, an attribute and an item
 
 
 def steps_tuple(p):
